@@ -26,6 +26,7 @@ import (
 	_ "verifsim/shapes/kv"
 	_ "verifsim/shapes/nested"
 	_ "verifsim/shapes/nestedb"
+	_ "verifsim/shapes/pair"
 	_ "verifsim/shapes/person"
 	_ "verifsim/shapes/rep3"
 )
@@ -46,7 +47,7 @@ func main() {
 	per := flag.Int("per", 3, "instances per goroutine and round")
 	flag.Parse()
 	r := core.NewRng(core.Mix(*seed, 0xace))
-	o := core.HistOpts{Shapes: []string{"doc", "flat", "flatb", "kv", "nested", "nestedb", "person", "rep3"}, PageMin: 1, PageMax: 4, MinBatches: 1, MaxBatches: 3, MaxOps: 10, Profile: core.Benign}
+	o := core.HistOpts{Shapes: []string{"doc", "flat", "flatb", "kv", "nested", "nestedb", "pair", "person", "rep3"}, PageMin: 1, PageMax: 4, MinBatches: 1, MaxBatches: 3, MaxOps: 10, Profile: core.Benign}
 	bad := 0
 	total := 0
 	// First-use stampede: for every shape, all goroutines start a writer at the
